@@ -69,10 +69,16 @@ Record rawrec := { r_fields : list (list Z); r_raw : list Z }.
 Definition dr : rawrec := {| r_fields := []; r_raw := [] |}.
 Definition field (f : nat) (r : rawrec) : list Z := nth f (r_fields r) [].
 
-(* how the EAGER writer lays out one record from the text of its fields (from_data / dump_csv) *)
+(* how a buffer class lays out one record from the text of its fields.  Since 81bde1f the eager writer of every class
+   (from_data / dump_csv; SAMBuffer.from_data = join_fields of the formatted columns) and the join of a modified lazy table
+   (buffer_class.join_fields) are the same function.  SAM: the optional tags are one possibly empty field and no
+   separator is written before an empty one (36989fd). *)
 Definition render (L : layout) (cells : list (list Z)) : list Z :=
   match L with
-  | LDelim | LSam => intercalate [9] cells ++ [10]
+  | LDelim => intercalate [9] cells ++ [10]
+  | LSam => match rev cells with
+            | [] :: r => intercalate [9] (rev r) ++ [10]
+            | _ => intercalate [9] cells ++ [10] end
   | LFastq => match cells with
               | [n; s; q] => [64] ++ n ++ [10] ++ s ++ [10; 43; 10] ++ q ++ [10]
               | _ => [] end
@@ -80,17 +86,7 @@ Definition render (L : layout) (cells : list (list Z)) : list Z :=
                | [n; s] => [62] ++ n ++ [10] ++ s ++ [10]
                | _ => [] end
   end.
-
-(* how the buffer class joins the text columns of a MODIFIED lazy table (buffer_class.join_fields).
-   SAMBuffer.join_fields (36989fd): the optional tags are one possibly empty field and no separator is written
-   before an empty one; every other buffer class joins like its eager writer. *)
-Definition join_fields (L : layout) (cells : list (list Z)) : list Z :=
-  match L with
-  | LSam => match rev cells with
-            | [] :: r => intercalate [9] (rev r) ++ [10]
-            | _ => render L cells end
-  | _ => render L cells
-  end.
+Definition join_fields (L : layout) (cells : list (list Z)) : list Z := render L cells.
 
 (* ---------------------------------------------------------------- generic column/row helpers *)
 Definition takeN {A} (d : A) (sel : list nat) (l : list A) : list A := map (fun j => nth j l d) sel.
@@ -307,8 +303,8 @@ Definition l_write (F : fmt) (hdr : list Z) (l : lazy) : option (list Z) :=
                        (rows_of_cols [] (length (l_buf l)) (map (text_col F l) (all_fields F))))
     end)
   end.
-(* the modified write agrees with the eager layout on every row it writes (false only for a SAM row whose
-   tags field is empty: the eager writer puts a tab in front of the empty field, join_fields does not) *)
+(* the modified write agrees with the eager layout on every row it writes (always, since 81bde1f; kept as an explicit
+   check so that a future divergence of join_fields and the eager writer shows up in the guard) *)
 Definition join_ok (F : fmt) (l : lazy) : bool :=
   match l_set l with
   | [] => true
